@@ -16,6 +16,7 @@ EVIDENCE = dict(assumptions=[
 
 def run(S):
     D = S.decls()
+    mpp_timeout(S, D)
     E = S.engine()
     mem = {}
     f_info = S.fn('construct_info_bytes', nargs=5)
@@ -103,3 +104,56 @@ def run(S):
     S.prove('C04.c.unknown_method_refused', E2, [method_bits > 4], X.zint(rv2.d) == 1,
             'metadata whose three method bits name no known method is refused', bounds='all 2^128 decrypted metadata blocks')
     S.no_panic('C04.c.total', E2, [], 'verify never panics, whatever 16 bytes the decryption yields')
+
+
+def mpp_timeout(S, D):
+    """C04.e: the periodic MPP time-out never fires on a payment whose parts already add up to the
+    sender's intended total (the completeness condition used when the payment was shown claimable)"""
+    N = 2 if S.tier == 'quick' else 3
+    E = S.engine(unwind=N + 1)
+    E.slice_cap = N
+    mem = {}
+    f = S.fn('check_mpp_timeout')
+    parts = E.sym_slice('parts', 'MppPart', N, mem)
+    fields = E.sym('fields', f.params[1][1], mem)
+    it = X.It('slice', inner=parts, extra=0)
+    rv = S.call(E, f, [it, fields], mem)
+    seq0 = None
+    total = field(E, D, 'RecipientOnionFields', 'total_mpp_amount_msat', mem[fields.cell], 'u64').t
+    n = z3.Int('parts.len')
+    MP = D.struct_fields('MppPart')
+
+    def pf(i, nm, ty):
+        return E.sym('parts[%d].%d' % (i, MP.index(nm)), ty).t
+    val = [pf(i, 'value', 'u64') for i in range(N)]
+    intended = [pf(i, 'sender_intended_value', 'u64') for i in range(N)]
+    ticks = [pf(i, 'timer_ticks', 'u8') for i in range(N)]
+    pres = [n > i for i in range(N)]
+    sum_intended = sum([z3.If(pres[i], intended[i], 0) for i in range(N)])
+    MPP_TIMEOUT_TICKS = 3
+    any_old = z3.Or(*[z3.And(pres[i], ticks[i] + 1 >= MPP_TIMEOUT_TICKS) for i in range(N)])
+    pre = [x <= 21_000_000 * 100_000_000 * 1000 for x in intended + val] + [t < 200 for t in ticks]
+    after = mem[parts.cell]
+    ticks_after = [E.read_path(after.elems[i], (('f', MP.index('timer_ticks'), 'u8'),), mem, True, 'spec').t for i in range(N)]
+    flat = []
+    for i in range(N):
+        flat += [val[i], intended[i], ticks[i]]
+
+    def line(vals):
+        k = vals[0]
+        return ' '.join(str(v) for v in [k] + vals[1:1 + 3 * k] + [vals[-1]])
+
+    def parse(t):
+        out = [int(t[0])] + [int(x) for x in t[1:]]
+        return out + [None] * (1 + N - len(out))
+    b = Binding('check_mpp_timeout', [n] + flat + [total], [z3.If(X.zbool(rv.t), 1, 0)] + ticks_after, parse=parse, line_fn=line,
+                panic=z3.Or(*[X.zbool(p[0]) for p in E.panics]) if E.panics else False)
+    S.prove('C04.e.complete_never_times_out', E, pre, z3.Implies(sum_intended >= total, z3.Not(X.zbool(rv.t))),
+            'a payment whose parts add up to the sender-intended total is never failed by the MPP timer (same completeness condition as the receive path: sum of sender_intended_value, which includes skimmed fees)',
+            [b], bounds='<= %d parts, all amounts <= MAX_VALUE_MSAT, tick counters < 200' % N)
+    S.prove('C04.e.timeout_iff', E, pre, X.zbool(rv.t) == z3.And(sum_intended < total, any_old),
+            'an incomplete payment times out exactly when one of its parts has waited MPP_TIMEOUT_TICKS ticks', [b])
+    S.prove('C04.e.ticks_advance', E, pre, z3.And(*[z3.Implies(pres[i], ticks_after[i] == ticks[i] + 1) for i in range(N)]),
+            'every held part ages by exactly one tick per timer call', [b])
+    S.no_panic('C04.e.nopanic', E, pre, 'no overflow', [b])
+    S.witness('C04.e.witness', E, pre + [n == N], rv.t)
